@@ -2,6 +2,7 @@ package c18
 
 import (
 	"fmt"
+	"path"
 	"strings"
 
 	"verifharness/hx"
@@ -24,7 +25,28 @@ func slideXMLBody(tok string, title string, withTable bool) string {
 	if title != "" {
 		b.WriteString(`<p:sp><p:nvSpPr><p:cNvPr id="2" name="Title 1"/><p:cNvSpPr/><p:nvPr><p:ph type="title"/></p:nvPr></p:nvSpPr><p:spPr/><p:txBody><a:bodyPr/><a:p><a:r><a:t>` + writers.XMLEsc(title) + `</a:t></a:r></a:p></p:txBody></p:sp>`)
 	}
-	b.WriteString(`<p:sp><p:nvSpPr><p:cNvPr id="3" name="Content 2"/><p:cNvSpPr/><p:nvPr><p:ph type="body" idx="1"/></p:nvPr></p:nvSpPr><p:spPr/><p:txBody><a:bodyPr/><a:p><a:r><a:t>point ` + tok + ` made</a:t></a:r></a:p><a:p><a:r><a:t>second line</a:t></a:r></a:p></p:txBody></p:sp>`)
+	// (the shape of the rest of the slide is derived from the token, so that it does not
+	// draw from the generator's stream: bulleted / numbered / indented paragraphs, and
+	// footer, slide-number, date and header placeholders)
+	h := 0
+	for _, c := range []byte(tok) {
+		h = h*31 + int(c)
+	}
+	if h < 0 {
+		h = -h
+	}
+	extra := ""
+	switch h % 4 {
+	case 1:
+		extra = `<a:p><a:pPr lvl="1"><a:buChar char="-"/></a:pPr><a:r><a:t>sub point</a:t></a:r></a:p><a:p><a:pPr lvl="2"/><a:r><a:t>deeper</a:t></a:r></a:p>`
+	case 2:
+		extra = `<a:p><a:pPr><a:buAutoNum type="arabicPeriod"/></a:pPr><a:r><a:t>first step</a:t></a:r></a:p><a:p><a:pPr lvl="1"><a:buNone/></a:pPr><a:r><a:t>plain indented</a:t></a:r></a:p>`
+	}
+	b.WriteString(`<p:sp><p:nvSpPr><p:cNvPr id="3" name="Content 2"/><p:cNvSpPr/><p:nvPr><p:ph type="body" idx="1"/></p:nvPr></p:nvSpPr><p:spPr/><p:txBody><a:bodyPr/><a:p><a:r><a:t>point ` + tok + ` made</a:t></a:r></a:p><a:p><a:r><a:t>second line</a:t></a:r></a:p>` + extra + `</p:txBody></p:sp>`)
+	if k := (h / 4) % 6; k < 4 {
+		ph := []string{"ftr", "sldNum", "dt", "hdr"}[k]
+		b.WriteString(`<p:sp><p:nvSpPr><p:cNvPr id="9" name="Placeholder 9"/><p:cNvSpPr/><p:nvPr><p:ph type="` + ph + `" idx="10"/></p:nvPr></p:nvSpPr><p:spPr/><p:txBody><a:bodyPr/><a:p><a:r><a:t>margin ` + ph + `</a:t></a:r></a:p></p:txBody></p:sp>`)
+	}
 	if withTable {
 		b.WriteString(`<p:graphicFrame><p:nvGraphicFramePr><p:cNvPr id="4" name="Table 3"/><p:cNvGraphicFramePr/><p:nvPr/></p:nvGraphicFramePr><p:xfrm/><a:graphic><a:graphicData uri="http://schemas.openxmlformats.org/drawingml/2006/table"><a:tbl><a:tblGrid><a:gridCol w="100"/><a:gridCol w="100"/></a:tblGrid><a:tr h="10"><a:tc><a:txBody><a:bodyPr/><a:p><a:r><a:t>k</a:t></a:r></a:p></a:txBody></a:tc><a:tc><a:txBody><a:bodyPr/><a:p><a:r><a:t>v</a:t></a:r></a:p></a:txBody></a:tc></a:tr></a:tbl></a:graphicData></a:graphic></p:graphicFrame>`)
 	}
@@ -94,7 +116,7 @@ func addNotes(r *hx.Rng, d *part, tokIdx, num int, used map[string]bool) {
 
 // slideRelsXML is the slide's relationship part: its layout and, when it has notes,
 // the notesSlide relationship, in either order and with unrelated ids.
-func slideRelsXML(r *hx.Rng, d part) string {
+func slideRelsList(r *hx.Rng, d part) [][3]string {
 	rels := [][3]string{{fmt.Sprintf("rId%d", r.Range(1, 3)), nsRel + "/slideLayout", relTarget(dirOf(d.Name), "ppt/slideLayouts/slideLayout1.xml")}}
 	if d.NotesRef != "" {
 		rels = append(rels, [3]string{fmt.Sprintf("rId%d", r.Range(4, 9)), nsRel + "/notesSlide", d.NotesRef})
@@ -103,7 +125,154 @@ func slideRelsXML(r *hx.Rng, d part) string {
 		rels = append(rels, [3]string{"rId10", nsRel + "/image", relTarget(dirOf(d.Name), "ppt/media/image1.png")})
 	}
 	hx.Shuffle(r, rels)
-	return relsXML(rels)
+	return rels
+}
+
+// tripleSpec renders relationships with their Type for the op line (Id.Type.Target).
+func tripleSpec(tag string, rels [][3]string) string {
+	var b strings.Builder
+	b.WriteString(tag)
+	for _, q := range rels {
+		b.WriteString("," + hx.HexS(q[0]) + "." + hx.HexS(q[1]) + "." + hx.HexS(q[2]))
+	}
+	return b.String()
+}
+
+// addSlideRels writes the relationship part of slide d and remembers its entries.
+func (p *pkg) addSlideRels(r *hx.Rng, d part) {
+	rels := slideRelsList(r, d)
+	if p.slideRels == nil {
+		p.slideRels = map[string][][3]string{}
+	}
+	p.slideRels[d.Name] = rels
+	p.add(partRelsName(d.Name), relsXML(rels), tripleSpec("T", rels))
+}
+
+// setDoc replaces the content of an already written member.
+func (p *pkg) setDoc(name, data, spec string) {
+	for i := range p.Docs {
+		if p.Docs[i].name == name {
+			p.Docs[i].data, p.Docs[i].spec = []byte(data), spec
+		}
+	}
+}
+
+const nsRelStrict = "http://purl.oclc.org/ooxml/officeDocument/relationships"
+
+// mutateNotes turns the notes plumbing of one slide into one of the irregular shapes a
+// reader meets (its own stream, one package in five): the notes part or the slide's
+// relationship part is not well-formed, the notesSlide relationship names a part of
+// another kind, the target is spelled relative to the package root without the leading
+// "/" (tolerated by readers, not a declared path: no oracle verdict), there are two
+// notesSlide relationships (ambiguous: no verdict), or the relationship type uses the
+// ISO-strict namespace. Expectations follow from the logical package: notes that cannot
+// be reached or read belong to no page.
+func (p *pkg) mutateNotes(r *hx.Rng) {
+	if !r.Chance(1, 5) {
+		return
+	}
+	var cand []*part
+	for _, ds := range [][]part{p.Declared, p.Decoys} {
+		for i := range ds {
+			d := &ds[i]
+			if d.NotesTok != "" && d.Name != "" && p.has(d.NotesName) && p.slideRels[d.Name] != nil {
+				cand = append(cand, d)
+			}
+		}
+	}
+	if len(cand) == 0 {
+		return
+	}
+	d := cand[r.Intn(len(cand))]
+	rels := append([][3]string(nil), p.slideRels[d.Name]...)
+	rewrite := func() {
+		p.slideRels[d.Name] = rels
+		p.setDoc(partRelsName(d.Name), relsXML(rels), tripleSpec("T", rels))
+	}
+	at := -1
+	for i, q := range rels {
+		if strings.HasSuffix(q[1], "/notesSlide") {
+			at = i
+		}
+	}
+	if at < 0 {
+		return
+	}
+	switch r.Intn(8) {
+	case 6, 7:
+		// a target that is not the shortest relative reference: dot segments, doubled
+		// slashes, root-relative spellings, a trailing slash ... The declaration is
+		// irregular: no oracle verdict; a notes part is put where path.Join leads
+		// (sometimes), and for "ppt/..." spellings under the literal name (sometimes).
+		junk := hx.Pick(r, []string{"..", "/", "//x.xml", "./a/../n.xml", "ppt/", "ppt/x.xml", "%6e.xml", "a//b.xml", "../../../n.xml",
+			"/../n.xml", "n.xml/", ".", "/ppt/notesSlides/../notesSlides/n.xml", "ppt/notesSlides/n.xml", "../notesSlides/./n.xml", "ppt/../ppt/n.xml"})
+		rels[at][2] = junk
+		rewrite()
+		dest := path.Join(dirOf(d.Name), junk)
+		if strings.HasPrefix(junk, "/") {
+			dest = path.Clean(junk)[1:]
+		}
+		place := func(name string) {
+			if name == "" || name == "." || strings.HasPrefix(name, "..") || strings.HasSuffix(name, "/") || p.has(name) {
+				return
+			}
+			p.add(name, notesXMLBody(token(r, 97+len(p.Docs)%2)), "N")
+		}
+		if r.Chance(2, 3) {
+			place(dest)
+		}
+		if strings.HasPrefix(junk, "ppt/") && r.Bool() {
+			place(junk)
+		}
+		p.Oracle = false
+		p.Notes = append(p.Notes, "notes-target-irregular")
+	case 0:
+		p.setDoc(d.NotesName, xmlHdr+`<p:notes xmlns:a="`+nsA+`" xmlns:p="`+nsP+`"><p:cSld><p:spTree><p:sp><p:txBody><a:p><a:r><a:t>lost `+d.NotesTok, "B")
+		d.NotesTok = ""
+		p.Notes = append(p.Notes, "notes-part-malformed")
+	case 1:
+		p.setDoc(partRelsName(d.Name), `<Relationships xmlns="`+nsPkgR+`"><Relationship Id="rId1" Type="`+nsRel+`/notesSlide" Target="`+writers.XMLEsc(d.NotesRef)+`"`, "B")
+		d.NotesTok = ""
+		p.Notes = append(p.Notes, "slide-rels-malformed")
+	case 2:
+		var other string
+		for _, e := range p.Declared {
+			if e.Name != "" && e.Name != d.Name && p.has(e.Name) {
+				other = e.Name
+			}
+		}
+		if other == "" {
+			other = "ppt/presentation.xml"
+		}
+		rels[at][2] = relTarget(dirOf(d.Name), other)
+		rewrite()
+		d.NotesTok = ""
+		p.Notes = append(p.Notes, "notes-rel-wrong-kind")
+	case 3:
+		if !strings.HasPrefix(d.NotesName, "ppt/") {
+			return
+		}
+		rels[at][2] = d.NotesName
+		rewrite()
+		p.Oracle = false
+		p.Notes = append(p.Notes, "notes-target-root-relative-no-slash")
+	case 4:
+		extra := [3]string{"rId77", nsRel + "/notesSlide", hx.Pick(r, []string{"../notesSlides/none.xml", "/ppt/presentation.xml", d.NotesRef + ".bak", ""})}
+		for _, e := range cand {
+			if e != d && r.Bool() {
+				extra[2] = relTarget(dirOf(d.Name), e.NotesName)
+			}
+		}
+		k := r.Intn(len(rels) + 1)
+		rels = append(rels[:k], append([][3]string{extra}, rels[k:]...)...)
+		rewrite()
+		p.Oracle = false
+		p.Notes = append(p.Notes, "two-notes-rels")
+	default:
+		rels[at][1] = nsRelStrict + "/notesSlide"
+		rewrite()
+		p.Notes = append(p.Notes, "notes-rel-strict-namespace")
+	}
 }
 
 func genPPTX(r *hx.Rng) *pkg {
@@ -212,6 +381,26 @@ func genPPTX(r *hx.Rng) *pkg {
 		}
 		p.Decoys = append(p.Decoys, d)
 	}
+	if noRels || noList {
+		// file-name fallback: candidate names that are not plain slide<N>.xml (nested below a
+		// directory whose name starts with "slide", doubled slash, blank, double extension),
+		// some with notes — the notes plumbing works from the candidate's own path
+		fr := r.Fork(0xfa11)
+		for k, m := 0, fr.Intn(3); k < m; k++ {
+			d := part{Tok: token(fr, 60+k), Title: "Odd"}
+			d.Name = hx.Pick(fr, []string{"ppt/slides/slide5/x.xml", "ppt/slides/slide.d/y.xml", "ppt/slides/slide7/.xml", "ppt/slides/slide 3.xml",
+				"ppt/slides/slide3/deep/er/z.xml", "ppt/slides/slide-2.xml.xml", "ppt/slides/slide5//x.xml", "ppt/slides/slide8/" + "slide1.xml"})
+			if used[d.Name] {
+				continue
+			}
+			used[d.Name] = true
+			if fr.Chance(2, 3) {
+				addNotes(fr, &d, 80+k, 40+k, used)
+			}
+			p.Decoys = append(p.Decoys, d)
+			p.Notes = append(p.Notes, "fallback-odd-candidate")
+		}
+	}
 	if !noRels && !noList { // near-name members (twins.go), from their own stream
 		tr := r.Fork(0x7717)
 		p.addOOXMLTwins(tr, "ppt", tSlide, used, &rels, func(j int, t *part) {
@@ -263,7 +452,7 @@ func genPPTX(r *hx.Rng) *pkg {
 		p.add("ppt/presentation.xml", pr.String(), listSpec("Q", ridList))
 	}
 	if !noRels {
-		p.add("ppt/_rels/presentation.xml.rels", relsXML(rels), pairSpec("R", relPairs(rels)))
+		p.add("ppt/_rels/presentation.xml.rels", relsXML(rels), tripleSpec("T", rels))
 	}
 	if r.Chance(3, 4) {
 		p.add("ppt/presProps.xml", xmlHdr+`<p:presentationPr xmlns:p="`+nsP+`"/>`, "")
@@ -288,8 +477,9 @@ func genPPTX(r *hx.Rng) *pkg {
 	for _, d := range p.Decoys {
 		p.add(d.Name, slideXMLBody(d.Tok, d.Title, false), "L")
 	}
-	// slide relationship parts and notes parts (opaque to the model: they do not take
-	// part in deciding which parts are presented, or in which order)
+	// slide relationship parts and notes parts (they do not take part in deciding which
+	// parts are presented, or in which order; op c18.pptxn / c18.api compare which notes
+	// part each presented slide carries)
 	withNotes := func(ds []part) {
 		for i := range ds {
 			d := &ds[i]
@@ -298,7 +488,7 @@ func genPPTX(r *hx.Rng) *pkg {
 			}
 			if d.NotesTok == "" {
 				if r.Chance(1, 3) && !p.has(partRelsName(d.Name)) {
-					p.add(partRelsName(d.Name), slideRelsXML(r, *d), "")
+					p.addSlideRels(r, *d)
 				}
 				continue
 			}
@@ -306,18 +496,19 @@ func genPPTX(r *hx.Rng) *pkg {
 				d.NotesTok, d.NotesName, d.NotesRef = "", "", ""
 				continue
 			}
-			p.add(partRelsName(d.Name), slideRelsXML(r, *d), "")
+			p.addSlideRels(r, *d)
 			if r.Chance(1, 12) {
 				// optional part absent: the relationship stays, the notes part is gone
 				d.NotesTok = ""
 				p.Notes = append(p.Notes, "notes-part-missing")
 				continue
 			}
-			p.add(d.NotesName, notesXMLBody(d.NotesTok), "")
+			p.add(d.NotesName, notesXMLBody(d.NotesTok), "N")
 		}
 	}
 	withNotes(p.Declared)
 	withNotes(p.Decoys)
+	p.mutateNotes(r.Fork(0x4e07))
 	// when the slide list yields no relationship target at all the reader falls back to
 	// file-name discovery: nothing is declared then, so the oracles do not apply
 	resolvable := 0
@@ -330,6 +521,7 @@ func genPPTX(r *hx.Rng) *pkg {
 		p.Oracle = false
 		p.Notes = append(p.Notes, "nothing-declared")
 	}
+	p.admissionVariant(r.Fork(0xad31))
 	p.finishZip(r, "")
 	return p
 }
